@@ -291,6 +291,23 @@ func Deps(v ssa.Value) map[string]bool {
 			visit(y.Index, d+1)
 		case *ssa.UnOp:
 			visit(y.X, d+1)
+			// a load of x.f that is dominated by a store to the same x.f in
+			// this function also depends on what was stored
+			if fa, ok := y.X.(*ssa.FieldAddr); ok && y.Op == token.MUL && y.Parent() != nil {
+				fname, base := fieldName(fa), Expr(fa.X)
+				for _, b := range y.Parent().Blocks {
+					for _, in := range b.Instrs {
+						st, ok := in.(*ssa.Store)
+						if !ok {
+							continue
+						}
+						fa2, ok := st.Addr.(*ssa.FieldAddr)
+						if ok && fa2.Field == fa.Field && fieldName(fa2) == fname && instrDominates(st, y) && Expr(fa2.X) == base {
+							visit(st.Val, d+1)
+						}
+					}
+				}
+			}
 		case *ssa.BinOp:
 			visit(y.X, d+1)
 			visit(y.Y, d+1)
